@@ -211,6 +211,12 @@ class G:
             rnd.shuffle(lam)
         if kind == "psd":
             lam[rnd.randrange(n)] = 0.0
+        if kind == "zero-rowcol":
+            # no information at all about one (or more) error component: all-zero row and column, rest diagonal / SPD
+            lam[rnd.randrange(n)] = 0.0
+            if n > 2 and rnd.random() < 0.5:
+                lam[rnd.randrange(n)] = 0.0
+            return np.diag(lam).tolist()
         if kind == "indef":
             i = rnd.randrange(n)
             lam[i] = -lam[i]
